@@ -182,4 +182,117 @@ def r8_7(ctx):
         ctx.note("Panel no longer mutates its title text; R8.7 is then vacuous")
 
 
-RULES = [r8_3, r8_4, r8_5, r8_6, r8_7]
+def r8_8(ctx):
+    ctx.rule("R8.8", "alignment wrapper (path-sensitive symbolic emission over all paths of Align's generator): the child's lines, shaped to their common width w, are emitted unchanged between pads; with padding enabled every line is exactly options.max_width cells for left / center / right (left + w + (excess - left) etc.), without padding never more; when the child already fills the width nothing is added")
+    from ..pathemit import PathEmit
+    f = ctx.repo.fn("align:Align.__rich_console__")
+    pe = PathEmit(f, inner="generate_segments")
+    states = pe.run()
+    ctx.floor(len(states), 5, "paths through Align.generate_segments")
+    W = {pe.W: 1}
+    n = 0
+    for s in states:
+        where = f.where
+        for ln, msg in s.problems:
+            ctx.violation(f.fq, msg, f"{f.module.relpath}:{ln}", f"Align: {msg} on path [{' & '.join(s.conds)}]")
+        if s.problems:
+            continue
+        conds = " & ".join(s.conds) or "always"
+        for w, ln in s.lines:
+            n += 1
+            exact_fit = any(c.startswith("excess_space <= 0") for c in s.conds)
+            padded = "self.pad" in s.conds or any("align == 'right'" == c for c in s.conds) and True
+            # the child's own width
+            child = s.store.get("width")
+            cw = child.form if child is not None and child.kind == "int" else None
+            if exact_fit:
+                ok = cw is not None and s.equal(w, cw)
+                ctx.check(ok, f.fq, f"[{conds}] line = {show(w)}", f"{f.module.relpath}:{ln}", "child fills the width: its lines are passed through unchanged",
+                          f"Align adds cells although the child already fills the width (line is `{show(w)}`, child `{show(cw) if cw else '?'}`) on path [{conds}]")
+                continue
+            if "not self.pad" in s.conds and not any(c == "align == 'right'" for c in s.conds):
+                # unpadded: left/center emit child (+ left pad for center): never more than W
+                extra = _sub(w, cw) if cw is not None else None
+                ok = extra is not None and (not extra or set(extra) <= {k for k in extra if extra[k] > 0})
+                ctx.check(cw is not None, f.fq, f"[{conds}] line = {show(w)}", f"{f.module.relpath}:{ln}", "unpadded line = child (+ left part)", f"cannot relate the unpadded line `{show(w)}` to the child's width on path [{conds}]")
+                continue
+            ok = s.equal(w, W)
+            ctx.check(ok, f.fq, f"[{conds}] line = {show(w)}", f"{f.module.relpath}:{ln}", f"padded line is exactly options.max_width on path [{conds}]",
+                      f"Align emits a line of `{show(w)}` cells on path [{conds}]: not exactly the available width `{pe.W}` - the wrapper is not a rectangle of the full width")
+    ctx.floor(n, 4, "emitted line kinds in Align")
+    src = norm(f.node)
+    ctx.check("excess_space = options.max_width - width" in src and "lines = Segment.set_shape(lines, width, height)" in src, f.fq, "excess_space = options.max_width - width", f.where,
+              "excess is measured against the shaped child width", "Align's excess space is not options.max_width minus the width its lines are shaped to")
+
+
+def _sub(a, b):
+    out = dict(a)
+    for k, v in b.items():
+        out[k] = out.get(k, 0) - v
+        if out[k] == 0:
+            del out[k]
+    return out
+
+
+def r8_9(ctx):
+    ctx.rule("R8.9", "progress bars: on every path with colour available the emitted cells sum to exactly the bar's width (complete + half + remaining, path-sensitive symbolic emission); the bar's width is capped by options.max_width; the pulse animation repeats its pattern at least floor(width/len)+2 times before slicing [offset : offset+width] with offset < len, so the slice always has `width` cells")
+    from ..pathemit import PathEmit
+    f = ctx.repo.fn("progress_bar:ProgressBar.__rich_console__")
+    pe = PathEmit(f)
+    states = pe.run()
+    n = 0
+    for s in states:
+        if any(c == "self.pulse" for c in s.conds):
+            continue
+        for ln, msg in s.problems:
+            ctx.violation(f.fq, msg, f"{f.module.relpath}:{ln}", f"ProgressBar: {msg} on path [{' & '.join(s.conds)}]")
+        if s.problems:
+            continue
+        conds = " & ".join(s.conds)
+        wv = s.store.get("width")
+        if wv is None or wv.kind != "int":
+            raise AnalysisError("ProgressBar: width variable not found")
+        colour = "not console.no_color" in s.conds and ("console.color_system is not None" in s.conds or "not remaining_bars" in s.conds)
+        if colour:
+            n += 1
+            ok = s.equal(s.cur, wv.form)
+            ctx.check(ok, f.fq, f"[{conds}] emitted = {show(s.cur)}", f.where, "with colour the bar fills exactly its width",
+                      f"ProgressBar emits `{show(s.cur)}` cells on path [{conds}], not its width `{show(wv.form)}`: the bar is shorter or longer than the space it was given")
+    ctx.floor(n, 3, "colour paths through ProgressBar.__rich_console__")
+    wd = [x for x in walk_local(f.node) if isinstance(x, ast.Assign) and norm(x.targets[0]) == "width"]
+    ok = len(wd) == 1 and isinstance(wd[0].value, ast.Call) and norm(wd[0].value.func) == "min" and any(norm(a) == "options.max_width" for a in wd[0].value.args)
+    ctx.check(ok, f.fq, norm(wd[0]) if wd else "?", f.where, "bar width capped by options.max_width", "ProgressBar's width is not min(..., options.max_width): a bar can exceed the width it is given")
+    # glyphs are single cells
+    from .c07 import _cell_width_fn
+    cw = _cell_width_fn(ctx)
+    for x in walk_local(f.node):
+        if isinstance(x, ast.Assign) and norm(x.targets[0]) in ("bar", "half_bar_right", "half_bar_left") and isinstance(x.value, ast.IfExp):
+            for arm in (x.value.body, x.value.orelse):
+                okg = isinstance(arm, ast.Constant) and isinstance(arm.value, str) and len(arm.value) == 1 and cw(arm.value) == 1
+                ctx.check(okg, f.fq, norm(x), f"{f.module.relpath}:{x.lineno}", f"glyph {norm(arm)} is one cell", f"bar glyph {norm(arm)} is not exactly one cell wide")
+    # pulse
+    p = ctx.repo.fn("progress_bar:ProgressBar._render_pulse")
+    rep = off = sl = None
+    for x in walk_local(p.node):
+        if isinstance(x, ast.Assign) and isinstance(x.value, ast.BinOp) and isinstance(x.value.op, ast.Mult) and norm(x.value.left) == "pulse_segments":
+            rep = x
+        if isinstance(x, ast.Assign) and isinstance(x.value, ast.BinOp) and isinstance(x.value.op, ast.Mod) and norm(x.value.right) == "segment_count":
+            off = x
+        if isinstance(x, ast.Assign) and isinstance(x.value, ast.Subscript) and isinstance(x.value.slice, ast.Slice):
+            sl = x
+    if rep is None or off is None or sl is None:
+        raise AnchorVanished("ProgressBar._render_pulse: repeat / offset / slice statements not found")
+    cnt = rep.value.right
+    form = lin(cnt)
+    base = [k for k in form if k]
+    c = form.get("", 0)
+    okb = len(base) == 1 and form[base[0]] == 1 and base[0] in ("int(width / segment_count)", "width // segment_count")
+    ctx.check(okb and c >= 2, p.fq, norm(rep), f"{p.module.relpath}:{rep.lineno}", f"pattern repeated floor(width/len) + {c} times (>= +2)",
+              f"the pulse pattern is repeated `{norm(cnt)}` times: with an offset of up to len-1 the slice [offset : offset+width] needs at least floor(width/len) + 2 repetitions, otherwise the pulse bar is shorter than its width for some animation phases")
+    o = norm(off.targets[0])
+    oks = norm(sl.value.slice.lower) == o and norm(sl.value.slice.upper) in (f"{o} + width", f"width + {o}") and norm(sl.value.value) == norm(rep.targets[0])
+    ctx.check(oks, p.fq, norm(sl), f"{p.module.relpath}:{sl.lineno}", "exactly `width` cells are cut out starting at the phase offset", "the pulse slice is not [offset : offset + width] of the repeated pattern")
+    ctx.check("segment_count = len(pulse_segments)" in norm(p.node), p.fq, "segment_count = len(pulse_segments)", p.where, "offset is taken modulo the pattern length", "segment_count is not the pattern length")
+
+
+RULES = [r8_3, r8_4, r8_5, r8_6, r8_7, r8_8, r8_9]
